@@ -132,8 +132,7 @@ func (*UnimplementedPreSharedKeyExtension) SetOmitEmptyPsk(val bool) {
 type UtlsPreSharedKeyExtension struct {
 	UnimplementedPreSharedKeyExtension
 	PreSharedKeyCommon
-	cipherSuite  *cipherSuiteTLS13
-	cachedLength *int
+	cipherSuite *cipherSuiteTLS13
 	// Deprecated: Set OmitEmptyPsk in Config instead.
 	OmitEmptyPsk bool
 }
@@ -184,12 +183,9 @@ func (e *UtlsPreSharedKeyExtension) Len() int {
 	if e.Session == nil {
 		return 0
 	}
-	if e.cachedLength != nil {
-		return *e.cachedLength
-	}
-	length := pskExtLen(e.Identities, e.Binders)
-	e.cachedLength = &length
-	return length
+	// Not cached: Identities and Binders are exported and Read() sizes its
+	// output from their current values.
+	return pskExtLen(e.Identities, e.Binders)
 }
 
 func readPskIntoBytes(b []byte, identities []PskIdentity, binders [][]byte) (int, error) {
